@@ -278,8 +278,31 @@ def main(argv=None):
                 pass
         shutil.rmtree(ctx.tmp, ignore_errors=True)
         return 2
-    except Exception:  # noqa: BLE001
+    except Exception as e:  # noqa: BLE001
         traceback.print_exc()
+        # An exception that escaped a driver is a machinery failure - unless it plainly comes from the
+        # code under test: (a) the innermost frame is inside scippneutron (the driver did not expect
+        # this call to raise), or (b) a non-finite number produced by the implementation reached an
+        # exact-arithmetic oracle (Fraction(inf), int(nan), ...).  Neither happens on a tree where the
+        # checks pass, so reporting them as violations cannot alarm on code where the property holds.
+        tb = traceback.extract_tb(e.__traceback__)
+        inner = tb[-1] if tb else None
+        msg = f'{type(e).__name__}: {e}'
+        from_impl = inner is not None and '/scippneutron/' in inner.filename.replace('\\', '/')
+        nonfinite = isinstance(e, (OverflowError, ZeroDivisionError, FloatingPointError)) or any(
+            w in msg for w in ('NaN', 'nan', 'Infinity', 'infinity'))
+        if from_impl or nonfinite:
+            where = f'{Path(inner.filename).name}:{inner.name}' if inner else '?'
+            if from_impl:
+                ctx.violation(f'implementation raised {type(e).__name__} where the check expects a result ({where})',
+                              {'exception': msg[:500]})
+            else:
+                ctx.violation(f'a non-finite or malformed result of the implementation reached the exact oracle ({where})',
+                              {'exception': msg[:500]})
+            try:
+                return ctx.finish() or 1
+            except Exception:  # noqa: BLE001
+                pass
         print(f'MACHINERY-FAILURE property={prop}: unexpected exception', file=sys.stderr)
         shutil.rmtree(ctx.tmp, ignore_errors=True)
         return 2
